@@ -153,41 +153,45 @@ def check(case, stats=None):
         shared = snap.shared_mutables(o, d)
         if shared:
             out.append((mksig(cname, mech, "shared_container", shared[0]), "containers reachable from both graphs: %r" % shared[:4]))
-    struct0 = {"o": snap.struct_snapshot(o), "d": snap.struct_snapshot(d)}
     cur = {"o": o, "d": d}
     fam = {"o": mf, "d": mf}
     steps = {"o": [], "d": []}
     for who, st_ in case["suffix"]:
         recv = cur[who]
+        other = "d" if who == "o" else "o"
+        # what the call must leave alone: the other side - its root object and the object derived there so far.
+        # (What the call does to its own receiver is C01's question, not C15's.)
+        watched = [(other, "root", o if other == "o" else d)]
+        if cur[other] is not watched[0][2]:
+            watched.append((other, "derived", cur[other]))
+        before = [(snap.render_snapshot(x), snap.struct_snapshot(x)) for _, _, x in watched]
         mname = c01.defining_class(recv, st_[0])
         res, exc = hist.apply(recv, st_, fam[who])
         if exc is None and res is not None and type(res).__name__ != "Joiner":
             cur[who] = res
             steps[who] = steps[who] + [st_]
             fam[who] = hist.result_family(fam[who], st_)
-        so, sd = snap.render_snapshot(o), snap.render_snapshot(d)
-        other = "d" if who == "o" else "o"
-        if so != snap0 or sd != snap0:
-            k = snap.diff_keys(so if so != snap0 else sd, snap0)
-            side = "original" if so != snap0 else "duplicate"
-            out.append((mksig(mname, st_[0], mech, "coupled"), "%s.%s on the %s side changed the %s (%s)" % (mname, st_[0], "original" if who == "o" else "duplicate", side, k[:3])))
-            return out
-        for w, obj in (("o", o), ("d", d)):
-            # the state itself, not only what the renderings show of it (a shared list may belong to a clause this statement kind never prints)
-            now = snap.struct_snapshot(obj)
-            if now != struct0[w]:
-                diff = snap.struct_diff(struct0[w], now)
-                out.append((mksig(mname, st_[0], mech, "coupled_state"), "%s.%s on the %s side changed the state of the %s: %s" % (
-                    mname, st_[0], "original" if who == "o" else "duplicate", "original" if w == "o" else "duplicate", str(diff)[:300])))
+        side_name = {"o": "original", "d": "duplicate"}
+        for (w, what, x), (r0, s0) in zip(watched, before):
+            r1 = snap.render_snapshot(x)
+            if r1 != r0:
+                k = snap.diff_keys(r1, r0)
+                out.append((mksig(mname, st_[0], mech, "coupled"), "%s.%s on the %s side changed the %s object of the %s side (%s)" % (mname, st_[0], side_name[who], what, side_name[w], k[:3])))
                 return out
-        for w in ("o", "d"):
-            if cur[w] is not (o if w == "o" else d):
-                tw = snap.render_snapshot(c01.rebuild(root, steps[w], mf))
-                now = snap.render_snapshot(cur[w])
-                if now != tw:
-                    k = snap.diff_keys(now, tw)
-                    out.append((mksig(mname, st_[0], mech, "derived_mismatch"), "object derived on the %s side differs from its linear twin in %s: %r vs %r" % (w, k[:3], now.get(k[0]), tw.get(k[0]))))
-                    return out
+            # the state itself, not only what the renderings show of it (a shared list may belong to a clause this statement kind never prints)
+            s1 = snap.struct_snapshot(x)
+            if s1 != s0:
+                out.append((mksig(mname, st_[0], mech, "coupled_state"), "%s.%s on the %s side changed the state of the %s object of the %s side: %s" % (
+                    mname, st_[0], side_name[who], what, side_name[w], str(snap.struct_diff(s0, s1))[:300])))
+                return out
+        # objects derived from the duplicate behave like objects derived from a fresh build of the same graph
+        if who == "d" and cur["d"] is not d:
+            tw = snap.render_snapshot(c01.rebuild(root, steps["d"], mf))
+            now = snap.render_snapshot(cur["d"])
+            if now != tw:
+                k = snap.diff_keys(now, tw)
+                out.append((mksig(mname, st_[0], mech, "derived_mismatch"), "object derived from the duplicate differs from its linear twin in %s: %r vs %r" % (k[:3], now.get(k[0]), tw.get(k[0]))))
+                return out
     return out
 
 
